@@ -79,6 +79,27 @@ def run(tier, seed):
             c["k"] = 8
             c["budget"] = 400000
             cases.append(c)
+    # the same repetition on interpreters with a past: an earlier module run (completed, failed, abandoned on an
+    # order), another program between the repetitions, the eval() entry point, and the program itself as a module
+    MODRUN = {"src": "export const h = [1, {a: 2}]; export function hf(){ return h; } h.length", "path": "/h/main.ts"}
+    REGIMES = {
+        "after-module-run": {"history": [MODRUN]},
+        "after-failed-module-run": {"history": [{"src": "export const h = {a: 1}; throw new Error('x');", "path": "/h/failed.ts"}]},
+        "after-abandoned-order-run": {"history": [{"src": "import { order } from 'tsrun:host'; export const h = 1; const v = await order({big: [1, 2, 3]}); v", "path": "/h/ab.ts", "answer_orders": False}]},
+        "module-run-between": {"between": [MODRUN]},
+        "script-run-between": {"between": [{"src": "(function(){ return [{}, {}].length; })()"}]},
+        "via-eval": {"entry": "eval"},
+        "via-eval-after-module-run": {"entry": "eval", "history": [MODRUN]},
+    }
+    sub = [p for p in base if p["id"].startswith("extra|")] + [p for p in base if not p["id"].startswith("extra|")][:: (12 if tier == "quick" else 3)]
+    for rn, reg in REGIMES.items():
+        for p in sub:
+            c = dict(p)
+            c.update(reg)
+            c["id"] = "%s|%s" % (p["id"], rn)
+            c["k"] = 8
+            c["budget"] = 400000
+            cases.append(c)
     res = core.run_batch(cases, sub_args=("leak",), hang_s=120, as_gb=2)
     total = 0
     stable = set()
@@ -90,6 +111,7 @@ def run(tier, seed):
         f["programs"] += 1
         total += 8
         name = c["id"].split("|")[1]
+        regime = c["id"].split("|")[2] if not c["id"].split("|")[2].startswith("gc=") else ""
         if o.get("status") != "ok":
             f["growing"] += 1
             chk.fail("proc|" + c["id"] + c["src"], str(o.get("status")), "%s: worker %s during repeated runs" % (c["id"], o.get("status")), {"src": c["src"], "gc": c.get("gc")}, cluster="process-level failure: " + name[:50])
@@ -100,7 +122,8 @@ def run(tier, seed):
             f["growing"] += 1
             delta = [b - a for a, b in zip(tail, tail[1:])]
             chk.fail("leak|" + c["id"] + c["src"], "delta %s" % delta, "%s: live objects after collect() over 8 runs: %s (outcome of each run: %s)" % (c["id"], lives, o["outs"][0][:60]),
-                     {"src": c["src"], "gc": c.get("gc")}, cluster="heap grows with repetition: " + name[:60])
+                     {"src": c["src"], "gc": c.get("gc")}, cluster=("every module run leaves its environment and namespace object rooted for the life of the interpreter (a module run between the repetitions)" if regime == "module-run-between" and len(set(delta)) == 1
+                              else "heap grows with repetition%s: %s" % ((" (" + regime + ")") if regime else "", name[:60])))
         else:
             stable.add((c["src"], lives[-1]))
     chk.coverage = {"evaluations": total, "distinct_nontrivial": len(stable), "families": fam, "programs": len(base),
